@@ -22,7 +22,7 @@ ASSUMPTIONS = ['the harness influence-set functions cover every node whose rate 
 BUDGET = {'quick': 160, 'thorough': 1500}
 CHUNK = {'quick': 10, 'thorough': 40}
 CASE_TIMEOUT = 300
-REQUIRED = ['clock_totals_checked_after_the_fast_scale_left', 'runs_reporting_a_strict_subset_of_statuses', 'null_events_seen', 'steps_law_checked', 'clock_draws_checked', 'selections_checked', 'thresholds_checked', 'chooser_calls_checked', 'terminations_checked', 'one_shot_influence_iterables', 'falsy_status_label_runs',
+REQUIRED = ['long_runs_checked', 'clock_totals_checked_after_the_fast_scale_left', 'runs_reporting_a_strict_subset_of_statuses', 'null_events_seen', 'steps_law_checked', 'clock_draws_checked', 'selections_checked', 'thresholds_checked', 'chooser_calls_checked', 'terminations_checked', 'one_shot_influence_iterables', 'falsy_status_label_runs',
             'counts_follow_statuses', 'e3_states_expanded', 'rate_zero_after_event_seen']
 
 
@@ -116,6 +116,13 @@ def model(name, params):
                 return b * (1 + 0.5 * sum(1 for v in G.neighbors(n) if s[v] == 'C'))
             return 0
         return rate, (lambda G, n, s, p=None: {'F': 'B', 'B': 'C'}[s[n]]), (lambda G, n, s, p=None: list(G.neighbors(n))), ['B', 'F', 'C']
+    if name == 'flip':
+        # never absorbing: every node keeps switching between A and B (used for the long runs: more than 1e5 rate updates in one call)
+        def rate(G, n, s, p=None):
+            if s[n] == 'A':
+                return a
+            return b * (1 + sum(1 for v in G.neighbors(n) if s[v] == 'A'))
+        return rate, (lambda G, n, s, p=None: 'B' if s[n] == 'A' else 'A'), (lambda G, n, s, p=None: list(G.neighbors(n))), ['A', 'B']
     if name == 'seir_econ':
         # an economical influence-set function, as the docstring invites ("leave out any nodes that it wouldn't have affected"): it looks at
         # what the node has just become.  S->E changes nobody's rate (empty set); E->I and I->R change the rates of the susceptible neighbours
@@ -153,6 +160,14 @@ def gen_cases(tier, seed):
                     'label_map': r.choice(['str', 'int0', 'rev_int', 'bool', 'emptystr']), 'return_subset': r.random() < 0.3, 'ic_extra': r.random() < 0.3})
         if m == 'twoscale':
             out[-1]['tmin'] = 0          # waiting times of order 1e-17 are absorbed by any other start time (ties)
+    # size-gated bookkeeping: one call with more than 1e5 rate updates (tens of thousands of events on a small ring)
+    for j in range(1 if q else 3):
+        cs = case_seed(seed, PID + 'long', j)
+        r = random.Random(cs)
+        nn = r.choice([10, 12])
+        out.append({'kind': 'e2', 'graph': {'n': nn, 'edges': [[i, (i + 1) % nn] for i in range(nn)], 'labels': 'int', 'kind': 'ring'}, 'model': 'flip',
+                    'params': [r.choice([0.7, 1.0]), r.choice([0.3, 1.0])], 'IC': [i % 2 for i in range(nn)], 'tmin': 0, 'tmax': 100000.0 / nn, 'full': False, 'seed': cs,
+                    'infl_form': 'list', 'label_map': 'str', 'return_subset': False, 'long': True})
     nmax = 4 if q else 5
     k = 0
     for desc in gen.atlas(nmax, 2):
@@ -281,6 +296,9 @@ def run_case(case):
             return res
         for k, v in counters.items():
             bump(res, k, v)
+        if case.get('long'):
+            bump(res, 'long_runs_checked')
+            bump(res, 'events_in_long_runs', len(events))
         for pred, det in fails:
             viol(res, tag + '|' + pred, det)
         if not fails:
